@@ -139,7 +139,7 @@ PROPS["C11"] = {
     "harness": "node", "level": "exploration", "per_proc": 60, "proc_timeout": 900,
     "quick": {"runs": 2500, "budget_s": 300},
     "thorough": {"runs": 120000, "budget_s": 1700, "shrink_runs": 200, "shrink_timeout": 600},
-    "rule": "Each run: as C10 plus engine close+reopen; points carry a random subset of five fields (sum, min, max, last, first), timestamps in the first 10 minutes of one or two hours (one or two data families per shard, sharing the shard's time series index), slot-aligned or not, duplicates and out-of-order slots inside and outside the 64-slot write window. Queries select one field over a random or whole-hour time range, optional tag condition (depth <= 1), group by none / host / id / id,host, interval none / 20 s / 30 s / 60 s. Oracle: a ledger of every accepted point; the reference keeps points whose 10 s storage slot lies in the truncated range, buckets them from the truncated range start, combines one bucket by the field's aggregate (sum/min/max exactly; last/first must be one of the written values) - compared group by group and slot by slot, including 'no value where nothing was written'. A group without any value of the selected field may be returned (series are selected before the field is read).",
+    "rule": "Each run: as C10 plus engine close+reopen; points carry a random subset of five fields (sum, min, max, last, first), timestamps in the first 10 minutes of one or two hours (one or two data families per shard, sharing the shard's time series index), slot-aligned or not, duplicates and out-of-order slots inside and outside the 64-slot write window. Queries select one field - a third of those on the sum field through sum(f), min(f) or max(f) - over a random or whole-hour time range (or spanning both hours), optional tag condition (depth <= 1), group by none / host / id / id,host, interval none / 20 s / 30 s / 60 s. Oracle: a ledger of every accepted point; the reference keeps points whose 10 s storage slot lies in the truncated range, buckets them from the truncated range start, combines one bucket by the field's aggregate (sum/min/max exactly; last/first must be one of the written values) - compared group by group and slot by slot, including 'no value where nothing was written'. A group without any value of the selected field may be returned (series are selected before the field is read).",
     "fault_kinds": ["flush", "compact", "close-reopen"],
     "real": NODE_REAL, "stub": NODE_STUB,
     "assumptions": COMMON_ASSUME + ["values are integers so float sums are exact in any order", "histogram fields are covered at file level by C03, not here", "one or two families (hours) per run"],
